@@ -16,7 +16,8 @@ import (
 type vRoute struct {
 	segs []string
 	verb string
-	// spelling of the same path: 0 = normal form, 1 = trailing slash, 2 = doubled slash before the last segment
+	// spelling of the same path: 0 = normal form, 1 = trailing slash, 2 = doubled slash before the last segment,
+	// 3 = three slashes before the last segment
 	spelling int
 }
 
@@ -26,6 +27,8 @@ func (r vRoute) path() string {
 		return "/" + strings.Join(r.segs, "/") + "/"
 	case r.spelling == 2 && len(r.segs) > 0:
 		return "/" + strings.Join(r.segs[:len(r.segs)-1], "/") + "//" + r.segs[len(r.segs)-1]
+	case r.spelling == 3 && len(r.segs) > 0:
+		return "/" + strings.Join(r.segs[:len(r.segs)-1], "/") + "///" + r.segs[len(r.segs)-1]
 	}
 	return "/" + strings.Join(r.segs, "/")
 }
@@ -62,7 +65,7 @@ func vUniverse() []vRoute {
 	for _, s1 := range alpha {
 		out = append(out, vRoute{[]string{s1}, "GET", 1})
 		for _, s2 := range []string{"a", "{x}"} {
-			out = append(out, vRoute{[]string{s1, s2}, "GET", 1}, vRoute{[]string{s1, s2}, "GET", 2})
+			out = append(out, vRoute{[]string{s1, s2}, "GET", 1}, vRoute{[]string{s1, s2}, "GET", 2}, vRoute{[]string{s1, s2}, "GET", 3})
 		}
 	}
 	return out
